@@ -92,6 +92,10 @@ def classify(unit, diags):
             continue
         hit = set()
         for s in spans:
+            if "/" in (s.get("file_name") or ""):
+                continue  # a span inside vstd (e.g. the `requires` of a panic spec): its line numbers are not ours
+            if (s.get("label") or "").startswith("at the end of the function body"):
+                continue  # covers the whole body: would blame every tagged hint inside it for a failed postcondition
             for ln in range(s.get("line_start", 0), s.get("line_end", 0) + 1):
                 for name in line_obl.get(ln, []):
                     hit.add(name)
@@ -101,6 +105,14 @@ def classify(unit, diags):
         if prim:
             fn = fn_at_line(unit, prim[0].get("line_start", 0))
         summary["function"] = fn
+        if not hit and fn and "precondition not satisfied" in msg:
+            # panic sites (`unreachable!`, `debug_assert!`, `expect`, `unwrap`: vstd gives them the
+            # precondition `false` / `is Ok`) carry no clause line of ours.  Convention: an obligation named
+            # `*.no_panic` written on a contract line of function f owns every otherwise unattributed
+            # precondition failure inside f.
+            for name, o in unit.obligations.items():
+                if name.endswith(".no_panic") and any(fn_at_line(unit, ln) == fn for ln in o["lines"]):
+                    hit.add(name)
         if hit:
             for name in hit:
                 failed.setdefault(name, []).append(summary)
@@ -141,74 +153,90 @@ def scan_assumptions(unit):
     return found, bad
 
 
-def verify_unit(unit_name, scratch, reach=True, mutate=None, seed=None, tag=""):
-    """returns a dict describing the run.  Raises Undecided for tool problems."""
-    t0 = time.time()
-    try:
-        unit = extract.build_unit(unit_name, reach=False, mutate=mutate)
-        runit = extract.build_unit(unit_name, reach=True, mutate=mutate) if reach else None
-    except ScanError as e:
-        raise Undecided("extraction: %s" % e)
-    fname = os.path.join(scratch, "%s%s.rs" % (unit_name, tag))
+def _run_verus(text, fname, scratch, extra=()):
     with open(fname, "w") as f:
-        f.write(unit.text())
+        f.write(text)
+    cmd = verus_cmd(os.path.basename(fname), extra)
+    rc, out, err = run_cmd(cmd, scratch, int(os.environ.get("VERIF_VERUS_TIMEOUT", "900")))
+    if rc is None:
+        raise Undecided("verus timeout")
+    return cmd, out, err
+
+
+def fn_key_at(unit, line):
+    for k, (a, b) in unit.fn_lines.items():
+        if a <= line <= b:
+            return k
+    return None
+
+
+def verify_unit(unit_name, scratch, reach=True, mutate=None, seed=None, tag=""):
+    """returns a dict describing the run.  Raises Undecided for tool problems.
+
+    Isolation loop: a front-end (rustc / unsupported-construct) error located inside an extracted fn does not
+    abort the unit.  First the statement-anchored proof hints of that fn are dropped (they may mention locals that
+    no longer exist); if its body still does not pass the front end the fn is emitted as an `external_body` stub:
+    callers are still checked against its contract, its own obligations become UNDECIDED (never a violation
+    without a failing replay on the real code)."""
+    t0 = time.time()
     extra = []
     if seed is not None:
         extra = ["--smt-option", "smt.random_seed=%d" % seed]
-    procs = []
-    cmd = verus_cmd(os.path.basename(fname), extra)
-    p1 = subprocess.Popen(cmd, cwd=scratch, stdout=subprocess.PIPE, stderr=subprocess.PIPE, text=True, start_new_session=True)
-    p2 = None
-    if reach:
-        rname = os.path.join(scratch, "%s%s_reach.rs" % (unit_name, tag))
-        with open(rname, "w") as f:
-            f.write(runit.text())
-        p2 = subprocess.Popen(verus_cmd(os.path.basename(rname)), cwd=scratch, stdout=subprocess.PIPE, stderr=subprocess.PIPE, text=True, start_new_session=True)
-    res = {}
-    try:
-        out, err = p1.communicate(timeout=int(os.environ.get("VERIF_VERUS_TIMEOUT", "900")))
-        rout = rerr = None
-        if p2:
-            rout, rerr = p2.communicate(timeout=900)
-    except subprocess.TimeoutExpired:
-        for p in (p1, p2):
-            if p:
-                try:
-                    os.killpg(p.pid, signal.SIGKILL)
-                except ProcessLookupError:
-                    pass
-        raise Undecided("verus timeout")
-    try:
-        oj = json.loads(out)
-    except ValueError:
-        raise Undecided("verus produced no JSON: %s" % (err[-2000:],))
-    diags, raw = parse_diags(err)
-    failed, unattr, hard = classify(unit, diags)
-    vr = oj.get("verification-results", {})
-    if hard or vr.get("encountered-vir-error") or (not vr.get("success") and not failed and not unattr):
-        msgs = "; ".join(h["message"][:300] for h in hard[:5]) or "; ".join(raw[:5])
-        raise Undecided("verus front-end / tool error in unit %s: %s" % (unit_name, msgs))
-    # rlimit / timeouts are reported as errors with specific messages
-    for u in list(unattr):
-        pass
-    # per-function details
-    funcs = {}
-    smt_ms = 0
-    fd = oj.get("func-details") or {}
-    for fname_, det in fd.items():
-        funcs[fname_] = det
-    times = oj.get("times-ms", {})
-    res.update({
-        "unit": unit, "failed": failed, "unattributed": unattr, "verified": vr.get("verified", 0),
-        "errors": vr.get("errors", 0), "times": times, "cmd": " ".join(cmd), "wall_s": time.time() - t0,
-        "file": fname, "stderr": err,
-    })
-    # resource-limit diagnostics must never become violations
+    stub, nohints = set(), set()
+    attempts = []
+    unit = None
+    for attempt in range(8):
+        try:
+            unit = extract.build_unit(unit_name, reach=False, mutate=mutate, stub=stub, nohints=nohints)
+        except ScanError as e:
+            raise Undecided("extraction: %s" % e)
+        fname = os.path.join(scratch, "%s%s.rs" % (unit_name, tag))
+        cmd, out, err = _run_verus(unit.text(), fname, scratch, extra)
+        try:
+            oj = json.loads(out)
+        except ValueError:
+            raise Undecided("verus produced no JSON: %s" % (err[-2000:],))
+        diags, raw = parse_diags(err)
+        failed, unattr, hard = classify(unit, diags)
+        vr = oj.get("verification-results", {})
+        if not hard:
+            break
+        progressed = False
+        for h in hard:
+            prim = [sp for sp in h["spans"] if sp[3]] or h["spans"]
+            key = fn_key_at(unit, prim[0][0]) if prim else None
+            if key is None:
+                continue
+            if key not in nohints and unit.fn_has_hints.get(key):
+                nohints.add(key)
+                progressed = True
+            elif key not in stub and key not in unit.stubbed:
+                stub.add(key)
+                progressed = True
+            attempts.append("%s: %s" % (key, h["message"][:160]))
+        if not progressed:
+            msgs = "; ".join(h["message"][:300] for h in hard[:5]) or "; ".join(raw[:5])
+            raise Undecided("verus front-end / tool error in unit %s (outside the extracted functions): %s" % (unit_name, msgs))
+    else:
+        raise Undecided("verus front-end errors persist in unit %s: %s" % (unit_name, "; ".join(attempts[-4:])))
+    if vr.get("encountered-vir-error") or (not vr.get("success") and not failed and not unattr):
+        raise Undecided("verus tool error in unit %s: %s" % (unit_name, "; ".join(raw[:5])))
     rl = [d for d in diags if "Resource limit" in d.get("message", "") or "rlimit" in d.get("message", "").lower() or "timed out" in d.get("message", "").lower()]
     if rl:
         raise Undecided("solver resource limit in unit %s: %s" % (unit_name, rl[0]["message"][:200]))
-    # ---- reach pass: every contracted function must fail at its REACH line
+    res = {
+        "unit": unit, "failed": failed, "unattributed": unattr, "verified": vr.get("verified", 0),
+        "errors": vr.get("errors", 0), "times": oj.get("times-ms", {}), "cmd": " ".join(cmd), "wall_s": time.time() - t0,
+        "file": fname, "stderr": err, "stubbed": dict(unit.stubbed), "isolation": attempts,
+    }
+    # ---- reach pass: every contracted, non-stubbed function must fail at its REACH line
     if reach:
+        try:
+            runit = extract.build_unit(unit_name, reach=True, mutate=mutate, stub=stub, nohints=nohints)
+        except ScanError as e:
+            raise Undecided("extraction (reach): %s" % e)
+        rname = os.path.join(scratch, "%s%s_reach.rs" % (unit_name, tag))
+        _, rout, rerr = _run_verus(runit.text(), rname, scratch)
         rdiags, _ = parse_diags(rerr)
         reach_lines = {}
         for i, ln in enumerate(runit.lines, 1):
@@ -219,8 +247,8 @@ def verify_unit(unit_name, scratch, reach=True, mutate=None, seed=None, tag=""):
         for d in rdiags:
             if d.get("level") != "error" or "assertion failed" not in d.get("message", ""):
                 continue
-            for s in d.get("spans", []):
-                for ln in range(s.get("line_start", 0), s.get("line_end", 0) + 1):
+            for sp in d.get("spans", []):
+                for ln in range(sp.get("line_start", 0), sp.get("line_end", 0) + 1):
                     if ln in reach_lines:
                         hit.add(ln)
         missing = [reach_lines[ln] for ln in reach_lines if ln not in hit]
